@@ -15,6 +15,8 @@ EXPLANATION = (
     "disjoint, neighbours share their edge exactly, pt2idx's tile contains the point, tile GeoBoxes have the specified "
     "shape/resolution/corner, idx_bounds returns exactly the tiles overlapping the box beyond the 1e-8 tolerance, "
     "from_sample_tile reconstructs the same grid, web_tiles(z) matches the slippy-map extents."
+    " Polygon queries with multi-part stand-in geometries (mere edge contact is not an overlap; a cache shared between queries does "
+    "not change the answer), web tiles up to zoom 30 to within 1/20 pixel."
 )
 ASSUMPTIONS = [
     "floats as exact reals; tile shape / resolution from a finite grid (they multiply), origin / indices / points / boxes symbolic and unbounded",
